@@ -318,6 +318,9 @@ func c01(c *Ctx) {
 	}
 	// the function patched by name is the one the caller designated (shared with C06.R4)
 	checkExactNameDerivation(p, r, "C01.R4")
+	// ---- R6 a freshly built guard is switched on
+	r.Floor("C01.R6", 3)
+	checkGuardActivated(p, r, "C01.R6")
 	// ---- R5 layout mirrors (both architectures)
 	checkLayouts(p, r, "C01.R5")
 	if k2, err := c.K2(); err == nil {
@@ -329,4 +332,95 @@ func c01(c *Ctx) {
 		r.Und("C01.R5", "arm64 configuration", "", "cannot load: "+err.Error())
 	}
 	c01Template(c, p)
+}
+
+// checkGuardActivated: a mocker that records a freshly built guard (a value of an interface type of the root package
+// that offers Apply and Cancel) switches it on before it returns — every way from the store to a return passes a call of
+// Apply on that guard; and the guard implementation that wraps a patch forwards Apply to the patch's own activation.
+func checkGuardActivated(p *Prog, r *Report, rule string) {
+	isGuardIface := func(t types.Type) bool {
+		nt, ok := t.(*types.Named)
+		if !ok || nt.Obj().Pkg() == nil || nt.Obj().Pkg().Path() != Mod {
+			return false
+		}
+		it, ok := nt.Underlying().(*types.Interface)
+		if !ok {
+			return false
+		}
+		has := map[string]bool{}
+		for i := 0; i < it.NumMethods(); i++ {
+			has[it.Method(i).Name()] = true
+		}
+		return has["Apply"] && has["Cancel"]
+	}
+	for _, f := range p.FuncsIn("") {
+		eachInstr(f, func(i ssa.Instruction) {
+			st, ok := i.(*ssa.Store)
+			if !ok {
+				return
+			}
+			fa, ok := st.Addr.(*ssa.FieldAddr)
+			if !ok {
+				return
+			}
+			fv := fieldVar(fa.X.Type(), fa.Field)
+			if fv == nil || !isGuardIface(fv.Type()) || isNilConst(st.Val) {
+				return
+			}
+			if _, isAl := fa.X.(*ssa.Alloc); isAl {
+				return // a record under construction: its maker's caller activates it
+			}
+			isApply := func(j ssa.Instruction) bool {
+				ci, ok := j.(ssa.CallInstruction)
+				if !ok || !ci.Common().IsInvoke() || ci.Common().Method.Name() != "Apply" {
+					return false
+				}
+				rv := resolveLocal(ci.Common().Value)
+				if rv == resolveLocal(st.Val) {
+					return true
+				}
+				b, f2, ok := fieldRef(rv)
+				return ok && f2 == fv && resolveLocal(b) == resolveLocal(fa.X)
+			}
+			okAll := true
+			for _, ret := range returnsOf(f) {
+				if reachableAfter(st, ret) && reachableAvoiding(st, ret, isApply) {
+					okAll = false
+				}
+			}
+			r.Check(okAll, rule, "guard recorded in "+shortName(f)+" is activated", p.Pos(posOf(st)), "Apply() on the recorded guard on every way to a return",
+				"a guard is built and recorded but not switched on before the mocker returns: the entry jump is never written, calls keep running the original although the mock reports itself applied")
+		})
+	}
+	// the wrapper around a patch forwards Apply
+	for _, f := range p.FuncsIn("") {
+		if f.Name() != "Apply" || f.Signature.Recv() == nil || f.Blocks == nil {
+			continue
+		}
+		// receiver type has a field of type *patch.Guard
+		rt := f.Signature.Recv().Type()
+		if pt, ok := rt.(*types.Pointer); ok {
+			rt = pt.Elem()
+		}
+		stt, ok := rt.Underlying().(*types.Struct)
+		if !ok {
+			continue
+		}
+		wraps := false
+		for k := 0; k < stt.NumFields(); k++ {
+			if pt, ok := stt.Field(k).Type().(*types.Pointer); ok && pt.Elem() == types.Type(p.patchRoles().Guard) {
+				wraps = true
+			}
+		}
+		if !wraps {
+			continue
+		}
+		fwd := false
+		for cal := range p.modReach(f) {
+			if cal.Name() == "Apply" && cal.Signature.Recv() != nil && relPkg(cal) == "internal/patch" {
+				fwd = true
+			}
+		}
+		r.Check(fwd, rule, "patch guard wrapper "+shortName(f)+" forwards activation", p.Pos(f.Pos()), "reaches (*patch.Guard).Apply", "the guard wrapper's Apply does not reach the patch's activation: nothing is ever written")
+	}
 }
